@@ -255,6 +255,21 @@ fn defplace_case(rng: &mut Rng, i: u64) -> Case {
             entry.push_str(&format!("\nm_cat_1 CAT({name},1) ;\n"));
         }
     }
+    // a define whose value is its own name leaves the text alone but is still *defined*
+    if d.chance(1, 5) {
+        let name = ["A", "B", "C", "D", "E", "F"][d.below(6) as usize];
+        if !g.defines.iter().any(|(n, _)| n == name) {
+            g.defines.push((name.to_string(), name.to_string()));
+            let entry = g.fs.files.get_mut(&g.entry).unwrap();
+            if !entry.ends_with('\n') {
+                entry.push('\n');
+            }
+            entry.push_str(&match form {
+                Form::Pre => format!("#ifdef {name}\nm_selfdef_yes 1 ;\n#else\nm_selfdef_no 2 ;\n#endif\n"),
+                Form::Compile => format!("#ifdef {name}\nstatic const int m_selfdef_yes = 1 ;\n#else\nstatic const int m_selfdef_no = 2 ;\n#endif\n"),
+            });
+        }
+    }
     // a caller may pass a name that compile() also defines itself: like a #define line, the
     // caller's value counts
     if form == Form::Compile && d.chance(1, 2) {
@@ -763,6 +778,96 @@ fn split(case: &Case, rep: &mut Report) {
         let r = res.results.into_iter().next().unwrap().into_iter().next().unwrap();
         rep.absorb_task(&r);
         rs.push(r);
+    }
+    // "Invoking an object-like macro yields its body": the same program with one to four of its
+    // words (any word that occurs at least twice outside string literals - names, types,
+    // keywords) replaced everywhere by fresh object-like macros defined in front of it. Every
+    // replaced occurrence then comes out of one macro body, i.e. out of the same few bytes of
+    // source, which is exactly what a compiler must not key anything on.
+    {
+        let mut mr = Rng::new(case.params.gu("split_seed")).sub("macroise");
+        let mut words: std::collections::BTreeMap<String, u32> = Default::default();
+        let mut in_string = false;
+        let mut cur = String::new();
+        for c in src.chars().chain(std::iter::once(' ')) {
+            if c == '"' {
+                in_string = !in_string;
+            }
+            if !in_string && (c.is_ascii_alphanumeric() || c == '_') {
+                cur.push(c);
+            } else {
+                if !cur.is_empty() && !cur.starts_with(|x: char| x.is_ascii_digit()) {
+                    *words.entry(std::mem::take(&mut cur)).or_insert(0) += 1;
+                }
+                cur.clear();
+            }
+        }
+        let mut frequent: Vec<String> = words.into_iter().filter(|(_, n)| *n >= 2).map(|(w, _)| w).collect();
+        mr.shuffle(&mut frequent);
+        frequent.truncate(mr.range(1, 4) as usize);
+        if !frequent.is_empty() {
+            let mut out = String::new();
+            for (k, w) in frequent.iter().enumerate() {
+                out.push_str(&format!("#define ZM{k}_ {w}\n"));
+            }
+            let mut in_string = false;
+            let mut cur = String::new();
+            for c in src.chars().chain(std::iter::once('\n')) {
+                if c == '"' {
+                    in_string = !in_string;
+                }
+                if !in_string && (c.is_ascii_alphanumeric() || c == '_') {
+                    cur.push(c);
+                } else {
+                    if !cur.is_empty() {
+                        match frequent.iter().position(|w| *w == cur) {
+                            Some(k) => out.push_str(&format!("ZM{k}_")),
+                            None => out.push_str(&cur),
+                        }
+                        cur.clear();
+                    }
+                    out.push(c);
+                }
+            }
+            let mut fs_m = case.fss[task_a.fs].clone();
+            fs_m.files.insert(task_a.entry.clone(), out);
+            let mut fss_m = case.fss.clone();
+            fss_m.push(fs_m);
+            let mut ex_m = ex_a.clone();
+            ex_m.threads[0].tasks[0].fs = fss_m.len() - 1;
+            let res = run_exec(&ex_m, &fss_m);
+            let m = res.results.into_iter().next().unwrap().into_iter().next().unwrap();
+            rep.absorb_task(&m);
+            rep.count("programs_with_words_replaced_by_macros", 1);
+            let a = &rs[0];
+            let msg = |r: &TaskResult| -> String {
+                r.text
+                    .lines()
+                    .find_map(|l| l.find("error: ").map(|p| l[p..].to_string()))
+                    .unwrap_or_default()
+            };
+            let differs = if m.kind == OutcomeKind::Panic || a.kind == OutcomeKind::Panic {
+                !(m.kind == a.kind && m.panic_site == a.panic_site)
+            } else if a.kind != m.kind {
+                true
+            } else if a.kind == OutcomeKind::Ok {
+                a.text != m.text
+            } else {
+                msg(a) != msg(&m)
+            };
+            if differs {
+                rep.findings.push(finding(
+                    "macro-vs-text",
+                    "compile-output",
+                    format!(
+                        "{}: replacing the words {frequent:?} by object-like macros changes what compile() returns at {}",
+                        case.label,
+                        crate::case::first_difference(&a.text, &m.text)
+                    ),
+                ));
+                return;
+            }
+        }
     }
     rep.count("programs_cut_into_included_files", 1);
     rep.count("files_after_the_cut", fss[fss.len() - 1].files.len() as u64);
